@@ -13,6 +13,7 @@ from nrel.hive.runner.environment import Environment
 from nrel.hive.state.vehicle_state import vehicle_state_ops
 from nrel.hive.state.vehicle_state.charge_queueing import ChargeQueueing
 from nrel.hive.state.vehicle_state.charging_station import ChargingStation
+from nrel.hive.state.vehicle_state.idle import Idle
 from nrel.hive.state.vehicle_state.vehicle_state import (
     VehicleState,
     VehicleStateInstanceId,
@@ -141,6 +142,11 @@ class DispatchStation(VehicleState):
             message = f"vehicle {self.vehicle_id} ended trip to station {self.station_id} but locations do not match: {locations}"
             return SimulationStateError(message), None
         else:
+            mechatronics = env.mechatronics.get(vehicle.mechatronics_id)
+            if mechatronics is not None and mechatronics.is_full(vehicle):
+                # nothing to charge: plugging in would fail ("vehicle is full"), the whole default
+                # transition would be discarded and the vehicle would stay in this state forever
+                return None, Idle.build(self.vehicle_id)
             available_chargers = station.get_available_chargers(self.charger_id)
             next_state = (
                 ChargingStation.build(self.vehicle_id, self.station_id, self.charger_id)
